@@ -55,7 +55,7 @@ def check(ctx: Ctx) -> None:
         "pad only appends one new WAIT whose time is symbolically requested - measured length, under `measured < requested`, "
         "the measured length being the sum of all WAIT times, units ticks vs ticks; cutoff writes only the note-off time, under "
         "`end - start > maximum`, to start + reduced (linear identity), scale (factor > 1) writes only WAIT times to time*factor, "
-        "factor == 1 writes nothing; the Sequence-level wrappers pass their arguments through unchanged. "
+        "factor == 1 writes nothing; the Sequence-level wrappers pass their arguments through unchanged; SORT cutoff re-sorts the list after rewriting end times, on every exit. "
         "Not decided: exact resulting durations as numbers; Sequence.scale's default re-quantisation.")
     ctx.assumptions += ["integer arguments; k >= 1 for scale (the k < 1 path re-bars the sequence and is outside C18)"]
 
@@ -173,6 +173,9 @@ def check(ctx: Ctx) -> None:
             ok = (isinstance(g.test.ops[0], ast.Gt) and l == dur and r == Sym.atom(mx)) or (isinstance(g.test.ops[0], ast.Lt) and r == dur and l == Sym.atom(mx))
         ctx.check(ok, "CUT", f"{q}: shortens exactly the notes longer than {mx}", function=q,
                   construct="cutoff guard is not `end - onset > maximum`", message=f"`{short(getattr(g, 'test', None))}`", file=fi.file, node=w.node)
+    from ..engines.mustflow import check_sorted_invariant
+    nsi = check_sorted_invariant(ctx, "SORT", methods={"cutoff"})
+    ctx.floor("cutoff re-sort obligation", nsi, 1)
     lps = [n for n in ast.walk(fi.node) if isinstance(n, ast.For)]
     ctx.check(not any(isinstance(x, (ast.Continue, ast.Break)) for lp_ in lps for x in ast.walk(lp_)), "FR", f"{q}: visits every pairing",
               function=q, construct="cutoff skips pairings", message="", file=fi.file, node=fi.node)
